@@ -42,11 +42,15 @@ META = {
     'level': 'proof',
     'technique': ('Coq proof (induction over the field list of the generated `_skip_i` program; structural induction over '
                   'comparison values for the inlined repr) on a hand-written Gallina model + differential correspondence '
-                  'with the implementation (operator semantics, generated source via hook H1, dump outcomes)'),
+                  'with the implementation (operator semantics, generated source and closure binding via hook H1, dump '
+                  'outcomes); `_locals` of a whole class as a threaded state with a freshness invariant; tie T for the tail '
+                  'of get_skip_if_condition'),
     'design_ref': 'DESIGN.md section 4 C11',
     'theorems': ['C11_cond_ops_table', 'C11_cond_ops_complete', 'C11_cond_compiled', 'C11_cond_compiled_in_context',
                  'C11_inlined_denoted', 'C11_closure_region', 'C11_cond_text_context_free', 'C11_keys',
-                 'C11_keys_bookkeeping', 'C11_always_compiles', 'C11_ref_select_spec'],
+                 'C11_keys_bookkeeping', 'C11_always_compiles', 'C11_ref_select_spec',
+                 'C11_locals_own_value', 'C11_locals_source_binder', 'C11_binder_source_tie', 'C11_locals_generator', 'C11_keys_locals',
+                 'C11_keys_identity', 'C11_evaluate_id_decided', 'C11_dedup_by_eq_refuted'],
     'tables': ['CondOps'],
     'level_text': ('Proved in Coq for ALL classes (any number of distinct fields, each with/without dump key, default, own '
                    'condition), all Meta settings, all instances, all exclude arguments and all skip_defaults arguments: the '
@@ -54,11 +58,20 @@ META = {
                    'exactly the reference selection computed with Condition.evaluate; for every operator of the table read '
                    'from models.py and EVERY comparison value (hashable or not, finite or not, opaque objects included) the '
                    'compiled text evaluates like Condition.evaluate and always compiles (model of the code after the F6 and '
-                   'F20 repairs).'),
+                   'F20 repairs).  The closure environment of a whole class: `_locals` is a dict threaded through the generator '
+                   '(Meta.skip_if, Meta.skip_defaults_if, then per field default and own condition); for EVERY class and every '
+                   'sound binder each name the generated text mentions denotes the very object its condition was built with '
+                   '(content and identity; freshness invariant by induction over the field list); the source\'s binder is '
+                   'sound and is what the translated tail of get_skip_if_condition means; with identified objects IS/IS_NOT '
+                   'select exactly the fields holding the condition\'s own object (no Unspecified outcome); a generator that '
+                   'de-duplicates closure values by == is refuted (IS(0) vs IS(0.0); two equal tuples).'),
     'level_note': ('Trusted: Coq kernel + vm_compute; the hand-written model (values: None/bool/int/float as m*2^e, nan, inf, '
                    '-0.0/str/tuple/list/dict/opaque tokens; Python comparison semantics; the generator transcribed from '
                    'dumpers.py/environ/dumpers.py); the step text -> AST of repr(v) (validated against ast.parse on every run); '
-                   'the harness. `is` between a literal and a non-singleton object is modelled as Unspecified.'),
+                   'the harness. `is` between a literal and a non-singleton object is modelled as Unspecified (never reached '
+                   'by a generated function: non-singletons under is/is not are closure-bound, C11_keys_identity). The recognizer '
+                   'binder_of_src (which statement lists after the early returns of get_skip_if_condition mean bind_own) and '
+                   'the AST translator CondOps.py are trusted.'),
     'rule': ('sem: pool of ~85 values (all types incl. nan, +-inf, -0.0, quotes, nested, unhashable tuples, Enum/objects/classes/'
              'builtin functions) + random values; pairs sampled (quick) or exhaustive (thorough) x 10 operators. '
              'cond: single-field classes over operator x value x placement (skip_if_field, Annotated, Meta.skip_if, '
@@ -70,12 +83,17 @@ META = {
              'the constructor, values equal to the default but of another type 1/1.0/True, 0/-0.0/False). decl: classes built '
              'around those features x 3 skip_defaults settings. shared: ONE Condition object reused by 4 classes at different '
              'field positions / as Meta.skip_if / Meta.skip_defaults_if, dumped in sequence in one interpreter. former_f20: every '
-             'former F6/F20 value shape. history: nested dataclass without rules + enclosing class with Meta rules, '
+             'former F6/F20 value shape. alias: classes with 2-4 conditions whose values are pairwise == but distinct objects '
+             '(0/0.0/False/-0.0/Decimal(0), equal tuples/lists/dicts/strings built separately, always-equal objects, one cached '
+             'object under two conditions) over skip_if_field / Annotated / Meta.skip_if / Meta.skip_defaults_if x 3 wizards, '
+             'identity operators dominating, instances where every field holds the very object of condition j + mixed ones; '
+             'number/names/binding of the `_skip_*` locals compared with SkipLocals.gen_locals and the documented scheme. history: nested dataclass without rules + enclosing class with Meta rules, '
              'orders enclosing>nested>enclosing and nested>enclosing>nested in one interpreter, every observation checked with '
              'the rules applying there (own / own / cascaded). A case is one to_dict call; non-trivial when the class has a '
              'condition or a default and >= 2 fields or a non-empty E; distinct = distinct (class, instance, E, s).'),
-    'trusted_base': ['model coq/model/SkipModel.v; nested shared nan objects inside containers are outside the model '
-                     '(generators never share them)',
+    'trusted_base': ['model coq/model/SkipModel.v + SkipLocals.v; nested shared nan objects inside containers are outside the '
+                     'model (generators never share them); Decimal and objects with a custom __eq__ are outside the value model '
+                     '(direct predicate + source/locals ties only)',
                      'interpretation: with Meta.skip_defaults_if set, the condition replaces the equality-with-default test '
                      '(README: "Skip fields with default values matching a specific condition")'],
     'assumptions': ['field names are distinct (dataclass invariant, hypothesis NoDup of C11_keys)'],
@@ -162,11 +180,23 @@ def d_inlined(d):
         return True
     if not d_hashable(d) or d_nonfinite(d):
         return False
-    return not (d['t'] == 'inst' or (d['t'] == 'tok' and d['k'] in ('enum', 'user')))
+    return not (d['t'] in ('inst', 'dec', 'eqall') or (d['t'] == 'tok' and d['k'] in ('enum', 'user')))
+
+
+def d_outside(d):
+    """values outside the Coq value model: decimal.Decimal, objects whose __eq__ is always True
+    (they take part in the direct predicate and in the source / binding ties only)"""
+    if d['t'] in ('dec', 'eqall'):
+        return True
+    if d['t'] in ('tuple', 'list'):
+        return any(d_outside(x) for x in d['v'])
+    if d['t'] == 'dict':
+        return any(d_outside(k) or d_outside(v) for k, v in d['v'])
+    return False
 
 
 def d_has_tok(d):
-    if d['t'] in ('tok', 'inst'):
+    if d['t'] in ('tok', 'inst', 'dec', 'eqall'):
         return True
     if d['t'] in ('tuple', 'list'):
         return any(d_has_tok(x) for x in d['v'])
@@ -258,6 +288,8 @@ def cv(d):
         return '(VTok %s %s)' % (TOKK[d['k']], cz(d['id']))
     if t == 'inst':          # instance of the nested dataclass (eq=False): an object with identity
         return '(VTok KUser %s)' % cz(1000 + d['i'])
+    if t in ('dec', 'eqall'):  # outside the value model; for the GENERATOR they are objects of a non-builtin class
+        return '(VTok KUser %s)' % cz(2000 + d.get('id', 0))
     raise ValueError(t)
 
 
@@ -265,6 +297,8 @@ def clv(lv, ids):
     d = lv['d']
     if d_singleton(d) or d['t'] in ('tok', 'inst'):
         return '(LV None %s)' % cv(d)
+    if d['t'] in ('dec', 'eqall'):       # a token per OBJECT (generator view only, see d_outside)
+        return '(LV None (VTok KUser %s))' % cz(3000 + ids[str(lv['l'])])
     return '(LV (Some %s) %s)' % (cz(ids[str(lv['l'])]), cv(d))
 
 
@@ -301,8 +335,10 @@ Definition show_calls (m : cmeta) (fs : list fdesc) (Es : list (option (list pst
   join (S "|") (flat_map (fun E => map (fun s => show_keys (cls_asdict m fs E s)) ss) Es).
 Definition show_clo (l : list (name * lval)) : pstr := join (S ",") (map (fun p => show_expr (ELocal (fst p))) l).
 Definition show_gen (m : cmeta) (fs : list fdesc) : pstr :=
-  show_prog (gen_prog m fs) ++ S "#" ++ show_clo (gen_closure m fs) ++ S "#" ++
-  (if cls_safe m fs then S "safe" else S "unsafe").
+  show_prog (fst (gen_st bind_own m fs)) ++ S "#" ++ show_clo (gen_locals bind_own m fs) ++ S "#" ++
+  (if cls_safe m fs then S "safe" else S "unsafe") ++ S "#" ++
+  show_locals (filter (fun p => skip_prefixed (fst p)) (gen_locals bind_own m fs)) ++ S "#" ++
+  (if own_valueb bind_own m fs then S "own" else S "shared").
 Definition show_sem (a b : lval) : pstr :=
   join (S ",") (map (fun op => show_rbool (evaluate (Cond op b) a)) all_cops).
 Definition show_val (v : value) : pstr :=
@@ -810,6 +846,154 @@ def cls_cases(ctx):
     return cases
 
 
+class Dec:
+    def __init__(self, v):
+        self.v = v
+
+
+class EqAllD:
+    def __init__(self, i):
+        self.i = i
+
+
+def DX(x):
+    """D() extended with the values outside the Coq model"""
+    if isinstance(x, Dec):
+        return {'t': 'dec', 'v': x.v}
+    if isinstance(x, EqAllD):
+        return {'t': 'eqall', 'id': x.i}
+    return D(x)
+
+
+# groups of values that are pairwise `==` (every located copy is built separately by the runner, so two
+# labels are two objects unless CPython caches the value: small ints, (), '', one-character strings)
+EQ_GROUPS = [
+    [0, 0.0, False, -0.0, Dec('0'), 0, 0.0],
+    [1, 1.0, True, Dec('1'), 1.0],
+    [10 ** 10, 10 ** 10, 1e10, Dec('10000000000'), 10 ** 10],
+    [257, 257, 257.0, 257],
+    [1.5, 1.5, Dec('1.5'), 1.5],
+    [-7, -7.0, -7, Dec('-7')],
+    [(1, 2), (1, 2), (1.0, 2), (True, 2), (1, 2)],
+    [((1, 2), 3), ((1, 2), 3), ((1.0, 2), 3.0)],
+    [(), ()],
+    [[1], [1], [1.0], [True], [1]],
+    [[], []],
+    [[[1], 'a'], [[1], 'a'], [[1.0], 'a']],
+    [{'a': 1}, {'a': 1}, {'a': 1.0}, {'a': True}],
+    [{}, {}],
+    [{'a': 1, 'b': 2}, {'b': 2, 'a': 1}, {'a': 1, 'b': 2}],
+    ['hello w', 'hello w', 'hello w'],
+    ["it's", "it's", "it's"],
+    ['', ''],
+    [(1, [2]), (1, [2]), (1.0, [2])],
+    [EqAllD(0), EqAllD(1), EqAllD(2), 5, 'x', (1, 2), None],
+    [EqAllD(3), EqAllD(4), [1], 0.0, EqAllD(5)],
+    [Tok('bareobj', 0), Tok('bareobj', 0)],          # identity-only equality: one object, two conditions
+    [Tok('enum', 1), Tok('enum', 1)],
+]
+
+
+def alias_cases(ctx):
+    """classes with 2..4 conditions whose comparison values are pairwise equal (`==`) but are DISTINCT
+    objects (0 / 0.0 / False / Decimal(0), equal tuples / lists / dicts / strings built separately, objects
+    whose __eq__ is always True), placed per field (skip_if_field, Annotated), in Meta.skip_if and in
+    Meta.skip_defaults_if; instances hold THE VERY OBJECT of one of the conditions (all fields, then mixed),
+    equal copies and other members of the group.  Identity operators dominate."""
+    r = ctx.sub_rng('alias')
+    cases = []
+    n = 70 if ctx.tier == 'quick' else 600
+    for ci in range(n):
+        L = Labels()
+        group = EQ_GROUPS[ci % len(EQ_GROUPS)] if ci < 2 * len(EQ_GROUPS) else r.choice(EQ_GROUPS)
+        wizard = r.choice(['json', 'json', 'plain', 'env'])
+        k = r.choice([2, 2, 3, 3, 4])
+        ops_pool = ['is', 'is', 'is not', 'is not', 'is', '==', '!=', '<', '>='] if ci % 4 else ['is', 'is not']
+        conds = []
+        for j in range(k):
+            x = group[j % len(group)] if ci < len(EQ_GROUPS) else r.choice(group)
+            conds.append({'op': r.choice(ops_pool), 'val': L.new(DX(x)), 'wrap': r.random() < 0.5})
+        places = []
+        for j in range(k):
+            u = r.random()
+            if u < 0.22 and 'meta_skip_if' not in places:
+                places.append('meta_skip_if')
+            elif u < 0.4 and 'meta_sdi' not in places:
+                places.append('meta_sdi')
+            else:
+                places.append(r.choice(['field', 'annotated']))
+        meta = {}
+        if r.random() < 0.25:
+            meta['skip_defaults'] = r.random() < 0.5
+        fields = []
+        n_plain = r.choice([0, 1, 1, 2]) if ('meta_skip_if' in places or 'meta_sdi' in places) else r.choice([0, 0, 1])
+        names = r.sample(NAMES, sum(1 for p_ in places if p_ in ('field', 'annotated')) + n_plain)
+        slots = [(p_, c_) for p_, c_ in zip(places, conds) if p_ in ('field', 'annotated')] + [(None, None)] * n_plain
+        r.shuffle(slots)
+        for nm, (p_, c_) in zip(names, slots):
+            f = {'name': nm, 'key': ref_key(nm, wizard), 'dump': True, 'default': None, 'cond': c_, 'place': p_}
+            if 'meta_sdi' in places and r.random() < 0.7 or r.random() < 0.2:
+                # the default: a member of the group (sometimes the very object of a condition), or unrelated
+                u = r.random()
+                if u < 0.3:
+                    f['default'] = r.choice(conds)['val']
+                elif u < 0.7:
+                    f['default'] = L.new(DX(r.choice(group)))
+                else:
+                    f['default'] = L.new(D(r.choice([None, 0, 'x', 1.5])))
+                f['factory'] = False
+            fields.append(f)
+        for p_, c_ in zip(places, conds):
+            if p_ == 'meta_skip_if':
+                meta['skip_if'] = c_
+            elif p_ == 'meta_sdi':
+                meta['skip_defaults_if'] = c_
+        if not fields:
+            continue
+        insts = []
+        for c_ in conds:                                    # every field holds the very object of condition c_
+            insts.append([c_['val'] for _f in fields])
+        for _ in range(2):
+            iv = []
+            for f in fields:
+                u = r.random()
+                if u < 0.5:
+                    iv.append(r.choice(conds)['val'])                      # the very object of some condition
+                elif u < 0.65:
+                    iv.append(L.new(r.choice(conds)['val']['d']))          # an equal copy (another object)
+                elif u < 0.85:
+                    iv.append(L.new(DX(r.choice(group))))                  # another member of the ==-class
+                elif f['default'] is not None and u < 0.92:
+                    iv.append(f['default'])
+                else:
+                    iv.append(L.new(D(r.choice([None, 'zz', 3, (9,)]))))
+            insts.append(iv)
+        has_dflt = any(f['default'] is not None for f in fields)
+        Es = [None] + ([[fields[0]['name']]] if r.random() < 0.4 else [])
+        cases.append({'stream': 'alias', 'wizard': wizard, 'kw_only': True, 'fields': fields, 'meta': meta, 'instances': insts,
+                      'Es': Es, 'ss': [None, True, False] if has_dflt else [None]})
+    return cases
+
+
+def expected_binding(c, ids):
+    """the documented scheme, read off the class description: every closure-bound condition has its OWN
+    local (`_skip_if_<i>` for the condition of field i, `_skip_value` for Meta.skip_if,
+    `_skip_defaults_value` for Meta.skip_defaults_if) holding the condition's own object.
+    Returns {name: canonical label}."""
+    out = {}
+
+    def bound(k):
+        return k is not None and k['op'] not in ('+', '!') and not d_spliced(k['op'], k['val']['d'])
+    for key, nm in (('skip_if', '_skip_value'), ('skip_defaults_if', '_skip_defaults_value')):
+        k = c['meta'].get(key)
+        if bound(k):
+            out[nm] = ids[str(k['val']['l'])]
+    for i, f in enumerate(c['fields']):
+        if model_dumped(c, f) and bound(f.get('cond')):
+            out['_skip_if_%d' % i] = ids[str(f['cond']['val']['l'])]
+    return out
+
+
 def finding_case(kind):
     """the witnesses of the former finding F20 (fixed), kept as ordinary cases"""
     L = Labels()
@@ -902,6 +1086,34 @@ def check_call(c, rec, call):
     return None
 
 
+def case_outside(c):
+    """does the class itself (comparison values, defaults) hold a value outside the Coq value model?"""
+    for f in c['fields']:
+        if f['default'] is not None and d_outside(f['default']['d']):
+            return True
+        if f.get('cond') is not None and f['cond']['val'] is not None and d_outside(f['cond']['val']['d']):
+            return True
+    for k in ('skip_if', 'skip_defaults_if'):
+        if c['meta'].get(k) is not None and c['meta'][k]['val'] is not None and d_outside(c['meta'][k]['val']['d']):
+            return True
+    return False
+
+
+def label_desc(c, lbl, ids):
+    """descriptor of (some) located value of the case whose canonical label is lbl"""
+    lvs = []
+    for f in c['fields']:
+        lvs += [f['default'], (f.get('cond') or {}).get('val')]
+    for k in ('skip_if', 'skip_defaults_if'):
+        lvs.append((c['meta'].get(k) or {}).get('val'))
+    for iv in c['instances']:
+        lvs += list(iv)
+    for lv in lvs:
+        if lv is not None and ids.get(str(lv['l'])) == lbl:
+            return lv['d']
+    return None
+
+
 def shared_nan(c, inst, ids):
     """an instance value that IS (same object) a default / comparison value of the class and is a
     container holding nan: CPython's per-element identity shortcut makes it equal to itself, the
@@ -948,13 +1160,15 @@ def eval_cases(ctx, cases, impl_cases, tie=True):
         for ii, inst in enumerate(c['instances']):
             if 'setup_err' in res['instances'][ii]:
                 continue
+            if case_outside(c) or any(d_outside(lv['d']) for lv in inst):
+                continue                     # outside the Coq value model: direct predicate, source and binding ties only
             index.append((ci, ii, len(exprs)))
             exprs.append('show_calls %s %s %s %s' % (cmeta(c['meta'], ids), cfields(c, inst, ids),
                                                       coq_list([cE(E) for E in c['Es']]), coq_list([CS[s] for s in c['ss']])))
     model = None
     if tie and ctx.coq_ok:
         try:
-            model = ctx.coq(exprs, ['SkipModel'], prelude=PRELUDE, tag='cases')
+            model = ctx.coq(exprs, ['SkipModel', 'SkipLocals'], prelude=PRELUDE, tag='cases')
         except Exception as e:  # noqa
             ctx.broken_tie('model evaluation failed: %s' % str(e)[:600])
     model_of = {(ci, w): model[k] for ci, w, k in index} if model is not None else {}
@@ -968,8 +1182,26 @@ def eval_cases(ctx, cases, impl_cases, tie=True):
             continue
         # ---- source tie
         if (ci, 'gen') in model_of and 'source' in res:
-            mprog, mclo, msafe = model_of[(ci, 'gen')].split('#')
+            mprog, mclo, msafe, mloc, mown = model_of[(ci, 'gen')].split('#', 4)
             iclo = ','.join(cname(n) for n in res.get('closure', []))
+            if mown != 'own':
+                ctx.broken_tie('SkipLocals: own_valueb bind_own is false for a generated class', {'case': c})
+            if 'binding' in res:
+                # number and binding of the `_skip_*` locals: model (name=#object id) vs the dict the generator built
+                def _o(lbl):
+                    if lbl is None:
+                        return '?'
+                    d = label_desc(c, lbl, res['ids'])
+                    return '@' if (d is None or d_singleton(d) or d['t'] in ('tok', 'inst', 'dec', 'eqall')) else 'id' + bin_(lbl)
+                iloc = ','.join('%s=%s' % (cname(n), _o(lbl)) for n, lbl in res['binding'])
+                ctx.traces_validated += 1
+                if sorted(iloc.split(',')) != sorted(mloc.split(',')):
+                    ctx.disagreements_checked += 1
+                    n_tie_reports += 1
+                    if n_tie_reports <= 5:
+                        ctx.broken_tie('`_skip_*` locals of the generated cls_asdict differ from SkipLocals.gen_locals',
+                                       {'case': c, 'impl_locals': iloc, 'model_locals': mloc,
+                                        'impl_source': res.get('source_text')})
             ctx.traces_validated += 1
             ctx.hist('model_region', msafe)
             ok = (res['source'] == 'BAD' and 'BAD' in mprog) or (res['source'] == mprog)
@@ -980,6 +1212,20 @@ def eval_cases(ctx, cases, impl_cases, tie=True):
                     ctx.broken_tie('generated cls_asdict differs from SkipModel.gen_prog',
                                    {'case': c, 'impl_source': res.get('source_text'), 'impl': res['source'], 'model': mprog,
                                     'impl_closure': iclo, 'model_closure': mclo})
+        # ---- binding, independent of the model: the documented scheme read off the class description
+        if 'binding' in res:
+            exp_b = expected_binding(c, res['ids'])
+            got_b = {n: lbl for n, lbl in res['binding']}
+            ctx.hist('closure_bound_conditions', len(exp_b))
+            if len(set(exp_b.values())) < len(exp_b):
+                ctx.hist('binding', 'one object used by several conditions')
+            if got_b != exp_b:
+                n_tie_reports += 1
+                if n_tie_reports <= 5:
+                    ctx.broken_tie('a generated `_skip_*` local does not hold its own condition\'s object',
+                                   {'case': c, 'impl_binding': got_b, 'expected_binding': exp_b,
+                                    'impl_source': res.get('source_text')})
+        outside_cls = case_outside(c)
         for ii, inst in enumerate(c['instances']):
             rec = res['instances'][ii]
             if 'setup_err' in rec:
@@ -987,6 +1233,9 @@ def eval_cases(ctx, cases, impl_cases, tie=True):
                 continue
             mres = model_of.get((ci, ii))
             mres = mres.split('|') if mres is not None else None
+            if outside_cls or any(d_outside(lv['d']) for lv in inst):
+                ctx.hist('outside_model_domain', 'Decimal / object with custom __eq__ (direct predicate only)')
+                mres = None
             if mres is not None and shared_nan(c, inst, res['ids']):
                 ctx.hist('outside_model_domain', 'instance shares a nan-holding container with the class')
                 mres = None
@@ -1028,7 +1277,7 @@ def sem_stream(ctx):
         try:
             exprs = ['show_val %s' % cv(d) for d in pool] + \
                     ['show_sem %s %s' % (clv(lvs[i], ids), clv(lvs[j], ids)) for i, j in pairs]
-            model = ctx.coq(exprs, ['SkipModel'], prelude=PRELUDE, tag='sem')
+            model = ctx.coq(exprs, ['SkipModel', 'SkipLocals'], prelude=PRELUDE, tag='sem')
         except Exception as e:  # noqa
             ctx.broken_tie('model evaluation failed (sem): %s' % str(e)[:600])
     nrep = 0
@@ -1093,7 +1342,7 @@ def run(ctx):
             ctx.known_finding(f['id'], still_fails=still)
     sem_stream(ctx)
     cases = cond_cases(ctx) + cls_cases(ctx) + decl_cases(ctx) + \
-        [finding_case(k) for k in ('syntax', 'name', 'is')] + former_f20_cases(ctx)
+        [finding_case(k) for k in ('syntax', 'name', 'is')] + former_f20_cases(ctx) + alias_cases(ctx)
     impl_cases = run_batch(ctx, cases)
     sh = shared_cases(ctx)                       # one interpreter for the whole stream, classes in sequence
     for k in range(0, len(sh), 240):
